@@ -98,6 +98,12 @@ def gen_tree(rng):
         imp = rng.choice(["conftest.py", "test_imp.py", "imp_test.py"])
         mod = "fx_mod_%d" % len(importers)
         form = rng.choice(["from .%s import *", 'pytest_plugins = ["%s"]', "from %s import *"])
+        if rng.random() < 0.4:
+            # the same module NAME beside importers in different directories: each importer's `helpers` is its own
+            mod = "helpers"
+            form = rng.choice(['pytest_plugins = ["%s"]', "from %s import *"])
+            if (d + "/" if d else "") + "helpers.py" in files:
+                continue
         if any(x[0] == (d + "/" if d else "") + imp for x in importers):
             continue            # one importer per path (a second one would overwrite the first one's text)
         files[(d + "/" if d else "") + imp] = (form % mod) + "\n" + FX.format("i%d" % len(importers))
